@@ -14,7 +14,7 @@ FUNCTIONS = ["wannierberri.run_grid.process (parallel branch: ray.wait loop, rem
 BOUNDS = dict(quick=dict(remotes="n = 2..4 K-points per process() call", nstep_print="1 (get_ray_cpus_count=1) and 2", completion="symbolic completion times T_i and ray.wait instants tau_j: "
                          "every completion order and every interleaving with the wait calls", timeouts="none, or the first wait call times out with fewer refs",
                          run="2x1x1 grid with one refinement iteration (adpt_mesh (2,1,1)) in parallel mode"),
-              thorough=dict(remotes="n = 2..5", nstep_print="1, 2, 3", completion="as quick", timeouts="as quick", run="2x2x1 grid, 1 refinement"))
+              thorough=dict(remotes="n = 2..6", nstep_print="1, 2, 3, 4", completion="as quick", timeouts="as quick, n <= 5", run="2x1x1 and 3x1x1 grids with 1 refinement, 2x2x1 without"))
 EXPLANATION = ("process() runs with a stand-in ray module whose wait() implements ray's documented contract over symbolic completion times: it returns the first num_returns "
                "ready refs in the order of the input list (fewer only on timeout); readiness is the fork T_i <= tau_j. Per-K results are symbolic atoms. z3 decides on every "
                "feasible schedule that the parallel sum equals sum_i factor_i r_i (the serial result) and that each K-point's result is stored exactly once.")
@@ -97,7 +97,7 @@ class Res:
 
 def case_process(rec, n, ncpu, allow_timeout):
     vals = [SymC.var(f"r{i}") for i in range(n)]
-    factors = [1.0, 0.5, 0.25, 2.0, 0.125][:n]
+    factors = [1.0, 0.5, 0.25, 2.0, 0.125, 0.75, 1.5][:n]
 
     def body(rec):
         ray = FakeRay(n, allow_timeout)
@@ -145,7 +145,7 @@ def case_process(rec, n, ncpu, allow_timeout):
 
 def case_serial(rec, n):
     vals = [SymC.var(f"r{i}") for i in range(n)]
-    factors = [1.0, 0.5, 0.25, 2.0, 0.125][:n]
+    factors = [1.0, 0.5, 0.25, 2.0, 0.125, 0.75, 1.5][:n]
 
     def body(rec):
         rec.witness = lambda env: dict(test="serial", n=n)
@@ -246,17 +246,18 @@ def case_run_parallel(rec, NKdiv, niter, adpt_mesh=(2, 1, 1)):
 def cases(tier, seed):
     q = tier == "quick"
     out = []
-    for n in ((2, 3, 4) if q else (2, 3, 4, 5)):
-        for ncpu in ((1, 2) if q else (1, 2, 3)):
+    for n in ((2, 3, 4) if q else (2, 3, 4, 5, 6)):
+        for ncpu in ((1, 2) if q else (1, 2, 3, 4)):
             if ncpu > n:
                 continue
             out.append(Case(f"process n={n} nstep={ncpu}", case_process, dict(n=n, ncpu=ncpu, allow_timeout=False), timeout=900 if q else 3000))
-        if n <= (3 if q else 4):
+        if n <= (3 if q else 5):
             out.append(Case(f"process n={n} nstep=1 one timeout", case_process, dict(n=n, ncpu=1, allow_timeout=True), timeout=900 if q else 3000))
         out.append(Case(f"serial n={n}", case_serial, dict(n=n)))
     out.append(Case("run parallel 2x1x1 niter=1", case_run_parallel, dict(NKdiv=(2, 1, 1), niter=1), timeout=1500 if q else 3000))
     if not q:
         out.append(Case("run parallel 2x2x1 niter=0", case_run_parallel, dict(NKdiv=(2, 2, 1), niter=0), timeout=3000))
+        out.append(Case("run parallel 3x1x1 niter=1", case_run_parallel, dict(NKdiv=(3, 1, 1), niter=1), timeout=3000))
     return out
 
 
